@@ -118,10 +118,19 @@ class AStar(Aggregator):
         return "AStar"
 
 
-def set_grad(t, name):
-    """pre-existing .grad with arbitrary content"""
+def set_grad(t, name, strided=False):
+    """pre-existing .grad with arbitrary content; strided: a NON-CONTIGUOUS tensor (every second element of a larger buffer), as left behind by an
+    optimizer or a user who assigned a view"""
     vals = [named(f"old_{name}_{k}") for k in range(t.numel())]
-    t._grad = torch.Tensor._make(vals, t.shape, t.dtype, "real")
+    if strided and t.numel() >= 2 and t.dim() >= 1:
+        inter = []
+        for v in vals:
+            inter += [v, R(0)]
+        base = torch.Tensor._make(inter, (2 * t.numel(),), t.dtype, "real")
+        g = base[::2]
+        t._grad = g.reshape(t.shape) if t.dim() == 1 else g.view(t.shape) if g._try_view_strides(list(t.shape)) is not None else torch.Tensor._make(vals, t.shape, t.dtype, "real")
+    else:
+        t._grad = torch.Tensor._make(vals, t.shape, t.dtype, "real")
     return vals
 
 
